@@ -1,4 +1,121 @@
-From Coq Require Import List ZArith Bool QArith.
+(* C69 Spin-model Hamiltonians match their textbook sums; generated lattices have the documented neighbour
+   relations.  Statements only; every proof is `exact <lemma>` from Disc/LatticeProofs.v.
+   Universally quantified statements: chain / square / rectangle at neighbour order 1 (all sizes, all boundary
+   conditions), well-formedness of the edge list for every shape/size/order, and the Hamiltonian assembly loops
+   for every edge list.  Other shapes: bounded vm_compute statements with the sizes written in the statement. *)
+From Coq Require Import List ZArith Bool QArith Permutation.
 From PLV Require Import Disc.LatticeModel Disc.LatticeProofs.
 Import ListNotations.
 Open Scope Z_scope.
+
+(* every shape, size, boundary condition, order: no duplicated edge, endpoints ordered, 0 <= tag < order *)
+Theorem edges_ordered_nodup : forall sp ncs bcs k,
+  NoDup (lattice_edges sp ncs bcs k) /\
+  forall a b t, In (a, b, t) (lattice_edges sp ncs bcs k) -> a <= b /\ 0 <= t < k.
+Proof. exact edges_wf. Qed.
+Print Assumptions edges_ordered_nodup.
+
+(* chain, all n >= 1, open or periodic: the edges are exactly (i, i+1) plus (0, n-1) when periodic
+   (for n = 2 the wrap edge coincides with (0,1); for n = 1 it is the self-loop (0,0), as in the implementation) *)
+Theorem chain_edges_spec : forall n per a b t, 0 < n ->
+  (In (a, b, t) (lattice_edges (spec_of Chain) [n] [per] 1) <->
+   t = 0 /\ ((0 <= a /\ b = a + 1 /\ b < n) \/ (per = true /\ a = 0 /\ b = n - 1))).
+Proof. exact chain_edges_explicit. Qed.
+Print Assumptions chain_edges_spec.
+
+Theorem chain_edges_count : forall n per, 0 < n ->
+  Z.of_nat (length (lattice_edges (spec_of Chain) [n] [per] 1)) = (n - 1) + (if per && negb (n =? 2) then 1 else 0).
+Proof. exact LatticeProofs.chain_edges_count. Qed.
+Print Assumptions chain_edges_count.
+
+Theorem chain_edges_irreflexive : forall n per a b t, 2 <= n ->
+  In (a, b, t) (lattice_edges (spec_of Chain) [n] [per] 1) -> a < b.
+Proof. exact chain_irreflexive. Qed.
+Print Assumptions chain_edges_irreflexive.
+
+(* square, all n1, n2 >= 1 and both boundary flags: nearest neighbours = grid adjacency with wrap-around
+   (grid_adj: sites r*n2+c and r'*n2+c' with r = r' and c ~ c' along a row, or c = c' and r ~ r' along a column,
+    where i ~ i+1 and, in a periodic direction, n-1 ~ 0) *)
+Theorem square_edges_spec : forall n1 n2 p1 p2 a b t, 0 < n1 -> 0 < n2 ->
+  (In (a, b, t) (lattice_edges (spec_of Square) [n1; n2] [p1; p2] 1) <->
+   t = 0 /\ exists u v, grid_adj n1 n2 p1 p2 u v /\ a = Z.min u v /\ b = Z.max u v).
+Proof. exact square_edges_in. Qed.
+Print Assumptions square_edges_spec.
+
+Theorem rectangle_edges_spec : forall n1 n2 p1 p2 a b t, 0 < n1 -> 0 < n2 ->
+  (In (a, b, t) (lattice_edges (spec_of Rectangle) [n1; n2] [p1; p2] 1) <->
+   t = 0 /\ exists u v, grid_adj n1 n2 p1 p2 u v /\ a = Z.min u v /\ b = Z.max u v).
+Proof. exact square_edges_in. Qed.
+Print Assumptions rectangle_edges_spec.
+
+(* the accumulation loops of the builders produce exactly the textbook sums over the edge list (any edge list,
+   any couplings: per-order vectors or per-edge matrices): 0*I, then one ZZ (resp. XX, YY, ZZ) term per edge with
+   that edge's coupling, then one X term per site *)
+Theorem ising_is_edge_sum : forall es J h n,
+  ising_terms es J h n =
+  H0 ++ map (fun e => (Qopp (coup_at J e), pair_word LZ (e1 e) (e2 e))) es ++ map (fun v => (Qopp h, [(v, LX)])) (range 0 n).
+Proof. exact ising_edge_sum. Qed.
+Print Assumptions ising_is_edge_sum.
+
+Theorem heisenberg_is_edge_sum : forall es JX JY JZ,
+  heis_terms es JX JY JZ =
+  H0 ++ flat_map (fun e => [(coup_at JX e, pair_word LX (e1 e) (e2 e)); (coup_at JY e, pair_word LY (e1 e) (e2 e));
+                            (coup_at JZ e, pair_word LZ (e1 e) (e2 e))]) es.
+Proof. exact heis_edge_sum. Qed.
+Print Assumptions heisenberg_is_edge_sum.
+
+(* fermi_hubbard (Jordan-Wigner images of the hopping and n_up n_down terms) *)
+Theorem hubbard_is_edge_sum : forall es t U n,
+  hubbard_terms es t U n =
+  H0 ++ flat_map (fun e => hop_terms (Qopp (coup_at t e)) (2 * e1 e) (2 * e2 e)
+                          ++ hop_terms (Qopp (coup_at t e)) (2 * e1 e + 1) (2 * e2 e + 1)) es
+     ++ flat_map (fun i => nn_terms (nthQ U i) (2 * i) (2 * i + 1)) (range 0 n).
+Proof. exact hubbard_edge_sum. Qed.
+Print Assumptions hubbard_is_edge_sum.
+
+(* chain + transverse Ising, all n, all couplings: up to the order of the terms the Hamiltonian is
+   0*I - sum_i J Z_i Z_{i+1} [- J Z_0 Z_{n-1} if periodic] - h sum_i X_i *)
+Theorem chain_ising_textbook : forall n per J h, 0 < n ->
+  Permutation (ising_terms (lattice_edges (spec_of Chain) [n] [per] 1) J h n)
+    (H0 ++ map (fun e => (Qopp (coup_at J e), pair_word LZ (e1 e) (e2 e)))
+               (map (fun i => (i, i + 1, 0)) (range 0 (n - 1)) ++ (if per && negb (n =? 2) then [(0, n - 1, 0)] else []))
+        ++ map (fun v => (Qopp h, [(v, LX)])) (range 0 n)).
+Proof. exact LatticeProofs.chain_ising_textbook. Qed.
+Print Assumptions chain_ising_textbook.
+
+(* Hermiticity at the term-list level: coefficients are rationals (real) by typing and every term is a Pauli
+   word (strictly increasing sites, one of X/Y/Z per site), hence every term is Hermitian *)
+Theorem hamiltonian_hermitian : forall es J h n JX JY JZ,
+  Forall (fun t : term => pauli_word (snd t)) (ising_terms es J h n) /\
+  Forall (fun t : term => pauli_word (snd t)) (heis_terms es JX JY JZ).
+Proof. intros; split; [exact (ising_hermitian es J h n) | exact (heis_hermitian es JX JY JZ)]. Qed.
+Print Assumptions hamiltonian_hermitian.
+
+(* bounded statements for the remaining shapes (sizes as written): coordination numbers of the fully periodic
+   lattices and edge counts (the expected numbers were taken from the real generate_lattice) *)
+Theorem coordination_numbers_size3 :
+  forallb (fun x : shape * list Z * Z => match x with (s, n, z) => regular s n z end)
+    [(Chain, [5], 2); (Square, [3; 4], 4); (Rectangle, [4; 3], 4); (Triangle, [3; 3], 6); (Honeycomb, [3; 3], 3);
+     (Kagome, [3; 3], 4); (Cubic, [3; 3; 3], 6); (Bcc, [3; 3; 3], 8); (Fcc, [3; 3; 3], 12); (Diamond, [3; 3; 3], 4)] = true.
+Proof. exact coordination_3. Qed.
+Print Assumptions coordination_numbers_size3.
+
+Theorem edge_counts_bounded :
+  map (fun x : shape * list Z * bool * Z => match x with (s, n, p, k) => n_edges s n p k end)
+    [(Square, [3; 3], false, 1); (Square, [3; 3], false, 2); (Square, [3; 3], true, 1); (Triangle, [3; 3], false, 1);
+     (Honeycomb, [2; 2], false, 1); (Honeycomb, [3; 3], true, 2); (Kagome, [2; 2], false, 1); (Lieb, [3; 3], true, 1);
+     (Lieb, [2; 2], false, 1); (Cubic, [2; 2; 2], false, 1); (Bcc, [2; 2; 2], false, 1); (Fcc, [2; 2; 2], false, 1);
+     (Diamond, [2; 2; 2], false, 1)]
+  = [12; 20; 18; 16; 8; 81; 17; 36; 12; 12; 27; 108; 20].
+Proof. exact edge_counts_small. Qed.
+Print Assumptions edge_counts_bounded.
+
+(* non-vacuity: the periodic 2x3 square lattice satisfies the hypotheses and has the expected wrap edge;
+   the 1-site periodic chain has the self-loop the implementation produces *)
+Example square_wrap_edge : In (0, 2, 0) (lattice_edges (spec_of Square) [2; 3] [true; true] 1) /\ grid_adj 2 3 true true 2 0.
+Proof.
+  split; [vm_compute; tauto|]. exists 0, 2, 0, 0; repeat split; try reflexivity; try discriminate.
+  left; split; auto; right; auto.
+Qed.
+Example chain_self_loop : lattice_edges (spec_of Chain) [1] [true] 1 = [(0, 0, 0)].
+Proof. reflexivity. Qed.
